@@ -14,7 +14,7 @@ import (
 func VerifReset() {
 	userConfig = config.New("templates", ".tw.html", "", false)
 	customFunc = config.NewFunc()
-	usesTemplates = false
+	usesTemplates.Store(false)
 }
 
 // VerifState is a read-only copy of the package-level state.
@@ -34,7 +34,7 @@ func VerifSnapshot() VerifState {
 		TemplateExt:   userConfig.TemplateExt,
 		ErrorPagePath: userConfig.ErrorPagePath,
 		DebugMode:     userConfig.DebugMode,
-		UsesTemplates: usesTemplates,
+		UsesTemplates: usesTemplates.Load(),
 	}
 
 	for k := range customFunc.Str {
